@@ -31,6 +31,9 @@ float nondet_float(void);
 #ifndef SKELETON_RETURN
 #define SKELETON_RETURN(f) ((void)0)
 #endif
+#ifndef MOVED_FROM_HOOK
+#define MOVED_FROM_HOOK(p) ((void)0)   /* move construction from std::move(x): &x */
+#endif
 #ifndef PLACEMENT_NEW_HOOK
 #define PLACEMENT_NEW_HOOK(p) (p)
 #endif
